@@ -460,6 +460,70 @@ def unselected_tests_as_try(fn: ast.AST) -> bool:
     return changed
 
 
+def _record_fields(mod, cls_name: str) -> Optional[List[str]]:
+    """the field names, in order, of a record class of the module (a dataclass / NamedTuple whose body declares them)"""
+    nodes = mod.defs.get(cls_name)
+    if not nodes or not isinstance(nodes[0], ast.ClassDef):
+        return None
+    out = [st.target.id for st in nodes[0].body if isinstance(st, ast.AnnAssign) and isinstance(st.target, ast.Name)]
+    return out or None
+
+
+def normalise_records(fn: ast.AST, mod) -> bool:
+    """two spellings of the wire record brought to the one the rules read:
+    (a) `ParsedField(a, b, c, d)` - the fields given by position - becomes the keyword form, in the order the class declares;
+    (b) `n, w, v, r = parsed` - the record of the current iteration destructured once into locals that are never rebound -
+        is removed and the locals are read as `parsed.number`, `parsed.wire_type`, ... (a record is immutable)"""
+    fields = _record_fields(mod, "ParsedField")
+    if not fields:
+        return False
+    changed = False
+    for c in ast.walk(fn):
+        if isinstance(c, ast.Call) and isinstance(c.func, ast.Name) and c.func.id == "ParsedField" and c.args and not any(isinstance(a, ast.Starred) for a in c.args) \
+                and len(c.args) + len(c.keywords) == len(fields) and not ({k.arg for k in c.keywords} & set(fields[:len(c.args)])):
+            c.keywords = [ast.keyword(arg=f, value=a) for f, a in zip(fields, c.args)] + list(c.keywords)
+            c.args = []
+            changed = True
+    # (b)
+    rec_vars = set()
+    for n in ast.walk(fn):
+        if isinstance(n, ast.Assign) and len(n.targets) == 1 and isinstance(n.targets[0], ast.Name) and isinstance(n.value, ast.Call) and isinstance(n.value.func, ast.Name) \
+                and n.value.func.id == "next":
+            rec_vars.add(n.targets[0].id)
+        if isinstance(n, ast.For) and isinstance(n.target, ast.Name) and isinstance(n.iter, (ast.Call, ast.Name)) and any(
+                isinstance(x, ast.Name) and x.id in ("load_fields", "parse_fields", "fields") for x in ast.walk(n.iter)):
+            rec_vars.add(n.target.id)
+    for parent in ast.walk(fn):
+        for fld in ("body", "orelse", "finalbody"):
+            body = getattr(parent, fld, None)
+            if not (isinstance(body, list) and body and isinstance(body[0], ast.stmt)):
+                continue
+            for i, st in enumerate(list(body)):
+                if not (isinstance(st, ast.Assign) and len(st.targets) == 1 and isinstance(st.targets[0], ast.Tuple) and isinstance(st.value, ast.Name) and st.value.id in rec_vars
+                        and len(st.targets[0].elts) == len(fields) and all(isinstance(e, ast.Name) for e in st.targets[0].elts)):
+                    continue
+                names = [e.id for e in st.targets[0].elts]
+                stores = [x for x in ast.walk(fn) if isinstance(x, ast.Name) and isinstance(x.ctx, (ast.Store, ast.Del)) and x.id in names]
+                params = {a.arg for a in fn.args.args + fn.args.kwonlyargs}
+                if len(stores) != len(names) or set(names) & params or len(set(names)) != len(names):
+                    continue
+                rec = st.value.id
+                mapping = dict(zip(names, fields))
+
+                class R(ast.NodeTransformer):
+                    def visit_Name(self, n):
+                        if isinstance(n.ctx, ast.Load) and n.id in mapping:
+                            return ast.copy_location(ast.Attribute(value=ast.Name(rec, ast.Load()), attr=mapping[n.id], ctx=ast.Load()), n)
+                        return n
+                body.remove(st)
+                for k, other in enumerate(fn.body):
+                    fn.body[k] = R().visit(other)
+                changed = True
+    if changed:
+        ast.fix_missing_locations(fn)
+    return changed
+
+
 def thread_none_tests(fn: ast.AST) -> bool:
     """after a helper with an early `return None` was expanded in assign mode:
          if C: _ret__h = None            if C: T = None; EXIT
@@ -1007,6 +1071,13 @@ class Expander:
                 ast.fix_missing_locations(cp)
                 cp._vt_qual = qual
                 cp._vt_origin = fn
+                fn = result = cp
+        if any(isinstance(n_, ast.Name) and n_.id == "ParsedField" for n_ in ast.walk(fn)) or any(
+                isinstance(n_, ast.Assign) and len(n_.targets) == 1 and isinstance(n_.targets[0], ast.Tuple) and len(n_.targets[0].elts) == 4 and isinstance(n_.value, ast.Name) for n_ in ast.walk(fn)):
+            cp = copy.deepcopy(fn)
+            if normalise_records(cp, self.mod):
+                cp._vt_qual = qual
+                cp._vt_origin = getattr(fn, "_vt_origin", fn)
                 fn = result = cp
         if any(isinstance(n_, ast.Attribute) and n_.attr == "_group_current" for n_ in ast.walk(fn)) and any(
                 isinstance(n_, ast.Call) and isinstance(n_.func, ast.Name) and n_.func.id == "getattr" for n_ in ast.walk(fn)):
